@@ -79,21 +79,31 @@ def run(tier):
 
     def relevant(case):
         return sum(1 for r in case.recs if r.k == "V" and r.slot != 0) >= 3
-    cc.run_checked(res, cases, "plain", oracle, relevant, "C03", known_class=KNOWN)
-    # two-mode differential on the deterministic part
-    ndiff = 0
-    for a, b in pairs:
-        if a.run.rc != 0 or b.run.rc != 0:
-            continue
-        if any(r.k == "W" for r in a.recs + b.recs):
-            continue
-        if a.profile == "sources" and (any(r.k == "<" and r.op in ("tmr_reg", "task_reg", "sleep") for r in a.recs)):
-            continue        # timing dependent: not part of the deterministic sub-profile
-        if a.profile == "messaging" and any(r.k == "<" and r.op in ("tmr_reg", "sleep", "ctx_tick", "btimeout", "tb") and r.ret is not None and r.ret >= 0 for r in a.recs):
-            continue
-        ndiff += 1
-        for key, detail in model_events.differential(a, b):
-            res.violate(key, detail + " [profile=%s seed=%s]" % (a.profile, a.seed), cc.replay_of(a, "differential: also run in dispatch mode"))
+    # two-mode differential on the deterministic part (judged chunk by chunk, while the traces are in memory)
+    ndiff_box = [0]
+    partner = {id(a): b for a, b in pairs}
+
+    def differential(chunk):
+        here = set(id(c) for c in chunk)
+        for a in chunk:
+            b = partner.get(id(a))
+            if b is None:
+                continue
+            if id(b) not in here:
+                raise RuntimeError("the two driving modes of one scenario ended up in different chunks")
+            if a.run.rc != 0 or b.run.rc != 0:
+                continue
+            if any(r.k == "W" for r in a.recs + b.recs):
+                continue
+            if a.profile == "sources" and (any(r.k == "<" and r.op in ("tmr_reg", "task_reg", "sleep") for r in a.recs)):
+                continue        # timing dependent: not part of the deterministic sub-profile
+            if a.profile == "messaging" and any(r.k == "<" and r.op in ("tmr_reg", "sleep", "ctx_tick", "btimeout", "tb") and r.ret is not None and r.ret >= 0 for r in a.recs):
+                continue
+            ndiff_box[0] += 1
+            for key, detail in model_events.differential(a, b):
+                res.violate(key, detail + " [profile=%s seed=%s]" % (a.profile, a.seed), cc.replay_of(a, "differential: also run in dispatch mode"))
+    cc.run_checked(res, cases, "plain", oracle, relevant, "C03", known_class=KNOWN, after_chunk=differential)
+    ndiff = ndiff_box[0]
     res.counters.update({k: v for k, v in stats.items() if k != "batch_sizes"})
     res.counters["dispatch_batch_size_histogram"] = {str(k): v for k, v in sorted(stats.get("batch_sizes", {}).items())}
     res.counters["differential_pairs_compared"] = ndiff
